@@ -112,9 +112,9 @@ CORPUS = sched.load_corpus("C17")
 
 def correspondence(ctx):
     core.assert_repo_loaded()
-    n_sched = ctx.pick(3, 8)
+    n_sched = ctx.pick(3, 6)
     cf = ctx.pick([2], [1, 2, 8])
-    graphs = [dict(c) for c in CORPUS] + [sched.gen_graph(ctx.rng) for _ in range(ctx.pick(3, 24))]
+    graphs = [dict(c) for c in CORPUS] + [sched.gen_graph(ctx.rng) for _ in range(ctx.pick(3, 14))]
     judge_workflows(ctx, graphs, n_sched, cf)
 
 
